@@ -41,7 +41,9 @@ for p in props:
         prev.append(json.load(open(m))['needs_to_manifest'])
     if suffix and prev:
         taken = '\nALREADY TAKEN (another engineer has already produced a change for this property; yours must break a DIFFERENT clause or a different code path, not a variation of it): the earlier change(s) manifest with: ' + ' | '.join(prev) + '\n'
-    if suffix >= 'h':
+    if suffix >= 'i':
+        taken += ('\nFLAVOUR REQUIRED FOR THIS ROUND: the breakage must be caused AT A DISTANCE. Do NOT edit the function that obviously implements the behaviour the property describes, and preferably not even the files named under CODE ANCHORS. Make the change in something that code RELIES ON: (1) a shared helper, utility, wrapper type, adapter, constructor, option default, flag / environment / config-file plumbing, validation or clone / copy / reset routine in ANOTHER file (preferably another package) whose contract the anchored code silently depends on; or (2) code that runs at a DIFFERENT MOMENT of the life-cycle (start-up, option parsing and defaulting, object construction, a per-connection or per-request context being derived, a transport / dialer / listener being wrapped) than the moment at which the property visibly fails. The earlier rounds (concurrency/timing, boundary values and partial I/O failures, feature interactions, optimisations and error paths, parsing/normalisation, and two free rounds) produced the items listed above, ALL of which the project\'s verification harness detects today; yours must not be a variation of any of them. Think of what a maintainer could plausibly change in a utility while working on something else (a helper that now trims / lower-cases / caches / returns a shared slice or a pointer into shared state, a wrapper that forgets to forward one optional interface or one method, a default that changes when a field is left zero, a Clone that becomes shallow, a context that is derived from the wrong parent, a config struct copied before instead of after a field is set) and whose effect on THIS property only shows for particular inputs, sequences or configurations. Typical use must behave exactly as before.\n')
+    elif suffix >= 'h':
         taken += ('\nNO REQUIRED FLAVOUR THIS ROUND. The engineers before you were asked for (in turn) concurrency/timing defects, boundary values and partial I/O failures, feature interactions, optimisations and error/clean-up paths, and parsing/normalisation mismatches; what they produced is listed above and is ALL detected by the project\'s verification harness today. Choose the kind of defect that YOU judge most likely to slip past a thorough harness that already catches all of those - think about which inputs, configurations, sequences, life-cycle moments (start-up, first/last request, reload, long uptime), protocol corners or code paths are least likely to be exercised - and break a clause or a code path that is not a variation of any listed item.\n')
     elif suffix >= 'g':
         taken += ('\nFLAVOUR REQUIRED FOR THIS ROUND: the breakage must be a PARSING / NORMALISATION / REPRESENTATION defect. Either (1) two places that interpret the SAME datum now disagree (one normalises and the other does not: letter case, a trailing dot, IPv6 brackets or zone, a default versus explicit port, percent-encoding, leading zeros, surrounding or internal whitespace, repeated or comma-joined header lines, empty list elements, signed versus unsigned, seconds versus milliseconds, int32 versus int64, a nil versus an empty value); or (2) a parser, formatter or converter becomes slightly too lenient or too strict or loses information on an unusual BUT LEGAL spelling (a number with a sign or leading zeros or at the limit of its type, a quoted string, an escape, a very long or empty token, an uncommon separator, a value that only round-trips approximately). Ordinary, canonical spellings must behave exactly as before.\n')
